@@ -211,9 +211,34 @@ func (w *World) Reset() {
 	}
 	w.F.DrainDeletionQueueV()
 	w.rc.take()
-	w.rc.mu.Lock()
-	w.rc.blobs = map[string][]byte{}
-	w.rc.mu.Unlock()
+	// manifest blobs stay: their content is a function of their file id
+}
+
+// RawKV is one raw key/value of the store.
+type RawKV struct {
+	P    int
+	K, V []byte
+}
+
+// Snapshot captures the complete raw content of the store (without the store signature).
+func (w *World) Snapshot() []RawKV {
+	var out []RawKV
+	w.Store.ScanAllV(func(p int, k, v []byte) {
+		if string(k) != string(storeIdKey) {
+			out = append(out, RawKV{p, k, v})
+		}
+	})
+	return out
+}
+
+// Restore resets the store and puts a captured content back, byte for byte.
+func (w *World) Restore(snap []RawKV) {
+	w.Reset()
+	for _, kv := range snap {
+		if err := w.Store.PutRawV(kv.P, kv.K, kv.V); err != nil {
+			mc.Fatal("restore: %v", err)
+		}
+	}
 }
 
 // PutBlob stores bytes under a file id on the recorder (manifest blobs).
@@ -319,13 +344,16 @@ type listStream struct {
 	out []*filer_pb.Entry
 }
 
-func (s *listStream) Send(r *filer_pb.ListEntriesResponse) error { s.out = append(s.out, r.Entry); return nil }
-func (s *listStream) SetHeader(metadata.MD) error               { return nil }
-func (s *listStream) SendHeader(metadata.MD) error              { return nil }
-func (s *listStream) SetTrailer(metadata.MD)                    {}
-func (s *listStream) Context() context.Context                  { return context.Background() }
-func (s *listStream) SendMsg(m interface{}) error               { return nil }
-func (s *listStream) RecvMsg(m interface{}) error               { return nil }
+func (s *listStream) Send(r *filer_pb.ListEntriesResponse) error {
+	s.out = append(s.out, r.Entry)
+	return nil
+}
+func (s *listStream) SetHeader(metadata.MD) error  { return nil }
+func (s *listStream) SendHeader(metadata.MD) error { return nil }
+func (s *listStream) SetTrailer(metadata.MD)       {}
+func (s *listStream) Context() context.Context     { return context.Background() }
+func (s *listStream) SendMsg(m interface{}) error  { return nil }
+func (s *listStream) RecvMsg(m interface{}) error  { return nil }
 
 // List calls the real ListEntries for one directory.
 func (w *World) List(dir string) []*filer_pb.Entry {
